@@ -41,6 +41,15 @@ func (fr *Frame) execBlock(b *ssa.BasicBlock, st *State, c string, in map[*ssa.B
 			} else {
 				fr.vals[x] = Val{T: f.Type(), L: v.L[lo:hi]}
 			}
+		case *ssa.Index:
+			xv := fr.get(x.X)
+			iv := fr.get(x.Index).L[0]
+			if !isString(x.X.Type()) {
+				unsupported("Index on %s", x.X.Type())
+			}
+			fr.safety("bounds", c, and("(<= 0 "+iv+")", "(< "+iv+" (blen "+xv.L[0]+"))"), x, "string index out of range")
+			fx.assert(implies(c, and("(<= 0 "+iv+")", "(< "+iv+" (blen "+xv.L[0]+"))")))
+			fr.vals[x] = Val{T: x.Type(), L: []string{fx.name("(bat "+xv.L[0]+" "+iv+")", "Int", "b")}}
 		case *ssa.UnOp:
 			fr.vals[x] = fr.unop(x, st, c)
 		case *ssa.BinOp:
